@@ -6,6 +6,7 @@ package checks
 import (
 	"encoding/json"
 	"fmt"
+	"os"
 	"path/filepath"
 	"sort"
 	"strings"
@@ -86,7 +87,92 @@ func reportFileDiffs(prefix string, a, b map[string]string, what string) []vlib.
 
 func c07Check(c c07Case) []vlib.Violation { return c07CheckRun(nil, c) }
 
+// c07AvoidPHPConverterHang: with converters on, veneers present and a model in
+// which a struct leads back to itself, the PHP converter template can recurse
+// without end (listed C04-hang-php-Converter-Generate; new triggers keep turning
+// up: an omitted builder, struct_fields_as_arguments, a promoted option). This
+// check runs cog in process and has no watchdog, so PHP is left out of such a
+// case (or, when it is the only language, converters are switched off).
+func c07AvoidPHPConverterHang(run *vlib.Run, c *c07Case) {
+	p := &c.Pipe
+	if !p.Config.Converters || !p.Config.Builders || len(p.Config.Veneers) == 0 || !contains(p.Languages, "php") {
+		return
+	}
+	recursive := false
+	for _, in := range p.Inputs {
+		if in.Model != nil && modelHasRecursiveStruct(in.Model) {
+			recursive = true
+		}
+	}
+	if !recursive {
+		return
+	}
+	count(run, "excluded:php_converters_with_veneers_on_a_recursive_model", 1)
+	var kept []string
+	for _, l := range p.Languages {
+		if l != "php" {
+			kept = append(kept, l)
+		}
+	}
+	if len(kept) == 0 {
+		p.Config.Converters = false
+		return
+	}
+	p.Languages = kept
+	if c.Alone == "php" {
+		c.Alone = kept[0]
+	}
+}
+
+// modelHasRecursiveStruct: some definition reaches itself through references.
+func modelHasRecursiveStruct(m *smodel.Model) bool {
+	var reach func(t smodel.T, onWay map[string]bool, depth int) bool
+	reach = func(t smodel.T, onWay map[string]bool, depth int) bool {
+		if depth > 40 {
+			return true
+		}
+		if t.Kind == smodel.KRef {
+			if onWay[t.Ref] {
+				return true
+			}
+			d := m.Def(t.Ref)
+			if d == nil {
+				return false
+			}
+			onWay[t.Ref] = true
+			defer delete(onWay, t.Ref)
+			return reach(d.Type, onWay, depth+1)
+		}
+		for _, f := range t.Fields {
+			if reach(f.Type, onWay, depth+1) {
+				return true
+			}
+		}
+		if t.Elem != nil && reach(*t.Elem, onWay, depth+1) {
+			return true
+		}
+		for _, b := range t.Branches {
+			if reach(b, onWay, depth+1) {
+				return true
+			}
+		}
+		for _, r := range t.Refs {
+			if reach(smodel.T{Kind: smodel.KRef, Ref: r}, onWay, depth+1) {
+				return true
+			}
+		}
+		return false
+	}
+	for _, d := range m.Defs {
+		if reach(smodel.T{Kind: smodel.KRef, Ref: d.Name}, map[string]bool{}, 0) {
+			return true
+		}
+	}
+	return false
+}
+
 func c07CheckRun(run *vlib.Run, c c07Case) []vlib.Violation {
+	c07AvoidPHPConverterHang(run, &c)
 	work := workDir("c07")
 	defer removeAll(work)
 	inputs := c.specs()
@@ -425,6 +511,10 @@ func TestC07(t *testing.T) {
 			// default objects nested in collections in Go's map order)
 			count(run, "excluded_by_construction:default_object_inside_collection", tamedDefaults)
 			tamedDefaults = 0
+		}
+		if tf := os.Getenv("VERIF_C07_TRACE"); tf != "" { // development aid: the case about to run
+			raw, _ := json.Marshal(map[string]any{"property": "C07", "case": c})
+			_ = os.WriteFile(tf, raw, 0o644)
 		}
 		if vs := c07CheckRun(run, c); len(vs) > 0 {
 			vlib.Fail(rt, run.Judge(c, vs))
